@@ -80,7 +80,16 @@ func runFull(c Case) (out Outcome) {
 	threads := fw.Threads
 
 	faces := make([]*fullFace, len(c.Cfg.Faces))
-	for i, fs := range c.Cfg.Faces {
+	// face numbers of the case -> the ids the real face table gave out (equal on the unchanged
+	// tree; the harness does not depend on that)
+	var realID []uint64
+	rid := func(idx int) uint64 {
+		if idx >= 1 && idx <= len(realID) {
+			return realID[idx-1]
+		}
+		return uint64(idx) + 1000 // a face that never existed
+	}
+	mkFace := func(i int, fs FaceSpec) *fullFace {
 		scope := defn.NonLocal
 		remote, local := fmt.Sprintf("udp4://10.0.0.%d:6363", i+2), "udp4://10.0.0.1:6363"
 		if fs.Local {
@@ -93,16 +102,17 @@ func runFull(c Case) (out Outcome) {
 		opt.IsConsumerControlledForwardingEnabled = true
 		ls := face.MakeNDNLPLinkService(tr, opt)
 		ls.Run(nil)
-		if ls.FaceID() != uint64(i+1) {
-			panic(fmt.Sprintf("harness: face %d got id %d", i+1, ls.FaceID()))
-		}
-		faces[i] = &fullFace{tr: tr, ls: ls}
+		realID = append(realID, ls.FaceID())
+		return &fullFace{tr: tr, ls: ls}
+	}
+	for i, fs := range c.Cfg.Faces {
+		faces[i] = mkFace(i, fs)
 	}
 	synctest.Wait()
 	defer func() {
 		synctest.Wait()
 		core.ShouldQuit = true
-		for _, f := range faces {
+		for _, f := range faces { // (a local variable of the closure: includes faces added later)
 			f.tr.Close()
 			synctest.Wait()
 		}
@@ -159,7 +169,7 @@ func runFull(c Case) (out Outcome) {
 			lp.PitToken = tok
 		}
 		if nextHop != 0 {
-			lp.NextHopFaceId = lpwire.U64(uint64(nextHop))
+			lp.NextHopFaceId = lpwire.U64(rid(nextHop))
 		}
 		if split > 1 && len(wire) >= split {
 			base := seqs[faceID-1]
@@ -209,11 +219,23 @@ func runFull(c Case) (out Outcome) {
 				return fail(i, viol("C01", "emission %s while no packet was being processed", emString(em)))
 			}
 		case "fibins":
-			table.FibStrategyTable.InsertNextHopEnc(mkName(op.N), uint64(op.F), op.Cost)
+			table.FibStrategyTable.InsertNextHopEnc(mkName(op.N), rid(op.F), op.Cost)
 			m.applyTableOp(op)
 		case "fibrm":
-			table.FibStrategyTable.RemoveNextHopEnc(mkName(op.N), uint64(op.F))
+			table.FibStrategyTable.RemoveNextHopEnc(mkName(op.N), rid(op.F))
 			m.applyTableOp(op)
+		case "down":
+			if m.FaceIsUp(op.F) {
+				faces[op.F-1].tr.Close() // the link service unregisters the face as for any closed transport
+				synctest.Wait()
+				m.FaceDown(op.F)
+			}
+		case "up":
+			fs := FaceSpec{Local: op.Local, Link: op.Link}
+			id := m.FaceUp(fs)
+			faces = append(faces, mkFace(id-1, fs))
+			seqs = append(seqs, 0)
+			synctest.Wait()
 		case "setstrat":
 			table.FibStrategyTable.SetStrategyEnc(mkName(op.N), mkName(strategyNames[op.Strat]))
 			m.applyTableOp(op)
@@ -226,8 +248,17 @@ func runFull(c Case) (out Outcome) {
 			table.SetCsCapacity(op.Cap)
 			m.applyTableOp(op)
 		case "I":
+			if !m.FaceIsUp(op.F) {
+				continue
+			}
 			wire := interestWire(op)
 			tok, _ := hex.DecodeString(op.Tok)
+			if op.Van {
+				// the transport closes and the face is unregistered while this frame is still
+				// inside the link service
+				faces[op.F-1].tr.Close()
+				synctest.Wait()
+			}
 			inject(op.F, wire, tok, op.NextHop, op.Split)
 			synctest.Wait()
 			if op.HasNonce {
@@ -237,10 +268,17 @@ func runFull(c Case) (out Outcome) {
 			if v != nil {
 				return fail(i, v)
 			}
-			if v := m.Interest(i, op, wire, em); v != nil {
+			judge := func() *Violation { return m.Interest(i, op, wire, em) }
+			if op.Van {
+				judge = func() *Violation { return m.Vanished(op, em, func() *Violation { return m.Interest(i, op, wire, em) }) }
+			}
+			if v := judge(); v != nil {
 				return fail(i, v)
 			}
 		case "D":
+			if !m.FaceIsUp(op.F) {
+				continue
+			}
 			wire := dataWire(op)
 			tok, ok := m.ResolveToken(op)
 			if !ok {
@@ -251,13 +289,21 @@ func runFull(c Case) (out Outcome) {
 				m.tainted = "known finding: token-less Data and a prefix-matching PIT entry held by another forwarding thread"
 				break
 			}
+			if op.Van {
+				faces[op.F-1].tr.Close()
+				synctest.Wait()
+			}
 			inject(op.F, wire, tok, 0, op.Split)
 			synctest.Wait()
 			em, v := collect()
 			if v != nil {
 				return fail(i, v)
 			}
-			if v := m.Data(i, op, wire, tok, em); v != nil {
+			judge := func() *Violation { return m.Data(i, op, wire, tok, em) }
+			if op.Van {
+				judge = func() *Violation { return m.Vanished(op, em, func() *Violation { return m.Data(i, op, wire, tok, em) }) }
+			}
+			if v := judge(); v != nil {
 				return fail(i, v)
 			}
 		}
